@@ -20,13 +20,14 @@ Proof.
 Qed.
 
 Lemma close_any : forall s s2, close_member s = Ok s2 ->
-  w_toc s2 = w_toc s /\ w_poff s2 = w_poff s /\ w_mstart s <= w_mstart s2 /\ w_cwn s2 >= w_mstart s2
+  w_toc s2 = w_toc s /\ w_poff s2 = w_poff s /\ w_mstart s <= w_mstart s2
   /\ (w_mstart s <= w_cwn s -> w_mstart s2 <= w_cwn s2)
   /\ (exists k, w_cs s2 = skipn k (w_cs s)).
 Proof.
   intros s s2 H. unfold close_member in H. destruct (w_cur s) as [p|].
-  - destruct (w_cs s) as [|c cs']; [discriminate|]. injection H as <-. simpl. repeat split; try lia. exists 1%nat. reflexivity.
-  - injection H as <-. repeat split; try lia. exists 0%nat. reflexivity.
+  - destruct (w_cs s) as [|c cs']; [discriminate|]. injection H as <-. simpl.
+    split; [reflexivity|]. split; [reflexivity|]. split; [lia|]. split; [lia|]. exists 1%nat. reflexivity.
+  - injection H as <-. split; [reflexivity|]. split; [reflexivity|]. split; [lia|]. split; [tauto|]. exists 0%nat. reflexivity.
 Qed.
 
 Lemma observe_some : forall s s1, observe_flush s = Ok s1 ->
@@ -214,7 +215,7 @@ Proof.
       destruct (0 <? pad512 (data_size e)).
       + destruct (wr_fields s2 (padb i e) (pad512 (data_size e))) as [V1 [V2 [V3 [V4 [V5 V6]]]]].
         split.
-        * destruct G2 as [A B C D']. apply (good_same s2); auto; try (constructor; assumption). lia.
+        * destruct G2 as [A B C D']. apply (good_same s2); auto; try (constructor; assumption); try lia.
         * eapply adv_trans; [exact A1|]. eapply adv_trans; [exact A2|]. apply adv_refl; assumption.
       + split; [assumption|eapply adv_trans; eauto].
     - injection H' as <-.
@@ -223,8 +224,13 @@ Proof.
       split.
       + destruct G1 as [A B C D]. constructor; simpl; try assumption.
         intros t Ht Hd. apply in_app_or in Ht. destruct Ht as [Ht|[Ht|[]]]; [auto|]. subst t. congruence.
-      + split; [simpl; lia|]. eexists. split; [simpl; rewrite W1; reflexivity|].
-        intros t [Ht|[]] Hd. subst t. congruence. }
+      + split.
+        * change (w_poff s <= w_poff (wr (cond_open s) (hdr i e) (e_hlen e))). rewrite W2. lia.
+        * exists [mkT (e_id e) match k with KReg => TReg | _ => TOther end (data_size e) 0 0 0 0]. split.
+          -- change (w_toc (wr (cond_open s) (hdr i e) (e_hlen e)) ++ [mkT (e_id e) match k with KReg => TReg | _ => TOther end (data_size e) 0 0 0 0]
+                     = w_toc s ++ [mkT (e_id e) match k with KReg => TReg | _ => TOther end (data_size e) 0 0 0 0]).
+             rewrite W1. reflexivity.
+          -- intros t [Ht|[]] Hd. subst t. congruence. }
   destruct (e_kind e) eqn:K.
   - apply (Main KReg); try reflexivity; try discriminate. exact H.
   - apply (Main KMeta); try reflexivity; try discriminate. exact H.
@@ -262,9 +268,9 @@ Proof.
   destruct (step_entry_good _ _ _ _ _ H G) as [G' _].
   unfold step_entry in H. unfold toc_spec. rewrite K in *. unfold data_size in *. rewrite K in *. rewrite Z in *.
   change (0 <? 1) with true in *. cbv iota in *.
-  destruct (chunks_one (eff_chunk o) (eff_chunk_pos o)) as [csf Ec]. rewrite Ec in *. simpl in H.
+  destruct (chunks_one (eff_chunk o) (eff_chunk_pos o)) as [csf Ec]. rewrite Ec in *. cbn [do_chunks] in H.
   destruct (do_chunk i o e true (wr (cond_open s) (hdr i e) (e_hlen e)) (0, 1, csf)) as [s2| |] eqn:D; try discriminate.
-  simpl in H. injection H as <-.
+  cbn [bind] in H. injection H as <-.
   destruct (wr_open_fields s (hdr i e) (e_hlen e)) as [W1 [W2 [W3 [W4 [W5 W6]]]]].
   destruct (do_chunk_cases _ _ _ _ _ _ _ D W6) as [x [off [inner [b [n [Es [Tx [Mx Cases]]]]]]]].
   simpl in Es.
@@ -280,8 +286,8 @@ Proof.
   assert (Hp : w_poff (if 0 <? pad512 1 then wr s2 (padb i e) (pad512 1) else s2) = off).
   { destruct (0 <? pad512 1); simpl; rewrite F2; assumption. }
   split; [exact Ht|]. split; [simpl; rewrite Z; reflexivity|]. split; [unfold is_data; simpl; rewrite Z; reflexivity|].
-  split; [simpl; assumption|]. split; [simpl; lia|]. split; [rewrite Hp; reflexivity|].
-  unfold data_size in G'. rewrite K, Z in G'. exact G'.
+  split; [simpl; assumption|]. split; [simpl; lia|]. split; [exact Hp|].
+  exact G'.
 Qed.
 
 (* a run over pre ++ landmark :: post *)
@@ -305,8 +311,8 @@ Proof.
   exists tp, lt, tq. split; [rewrite T3, T2, T1, <- !app_assoc; reflexivity|].
   pose proof (tx_run_entries _ _ _ _ _ R1) as X1. unfold tx in X1. rewrite T1, map_app in X1. apply app_inv_head in X1.
   pose proof (tx_run_entries _ _ _ _ _ H) as X3. unfold tx in X3. rewrite T3, map_app in X3. apply app_inv_head in X3.
-  repeat split; try assumption.
-  - lia.
+  split; [assumption|]. split; [assumption|]. split; [assumption|]. split; [assumption|]. split; [assumption|].
+  split; [lia|]. split; [|split; [|assumption]].
   - intros t Ht Hd. rewrite <- T1 in Ht. destruct G1 as [A B _ _]. specialize (A t Ht Hd). lia.
   - intros t Ht Hd. specialize (O3 t Ht Hd). lia.
 Qed.
@@ -314,7 +320,7 @@ Qed.
 (* ---------- one sub-blob, the sub-blobs, closeWithCombine ---------- *)
 
 Lemma good_init : forall cs fs, pos_all cs -> good (init_w cs fs).
-Proof. intros cs fs H. constructor; simpl; try lia; [intros t []|assumption]. Qed.
+Proof. intros cs fs H. constructor; simpl; [intros t []|lia|lia|assumption]. Qed.
 
 (* a finished writer: every recorded offset is inside its compressed size; its left-over oracle stays positive *)
 Lemma writer_bound : forall i o es cs fs w, run_writer i o 0 es cs fs = Ok w -> pos_all cs ->
@@ -324,7 +330,7 @@ Proof.
   destruct (run_entries i o (init_w cs fs) es) as [s1| |] eqn:R; try discriminate. simpl in H.
   replace (o_lossless o && (0 <? 0)) with false in H by (destruct (o_lossless o); reflexivity).
   destruct (run_entries_good _ _ _ _ _ R (good_init cs fs P)) as [[A B C D] _].
-  destruct (close_any _ _ H) as [E1 [E2 [E3 [E4 [E5 [k E6]]]]]].
+  destruct (close_any _ _ H) as [E1 [E2 [E3 [E5 [k E6]]]]].
   split.
   - intros t Ht Hd. rewrite E1 in Ht. specialize (A t Ht Hd). specialize (E5 C). lia.
   - rewrite E6. apply pos_skipn. assumption.
@@ -377,7 +383,7 @@ Proof.
       * inversion H; subst. destruct (IHp _ H2) as [P1 [pa [pb [P2 [E1 [E2 E3]]]]]].
         destruct P1 as [|q P1]; simpl in E1.
         -- inversion E1; subst. exists [], (b :: pa), pb, P2. simpl. repeat split; reflexivity.
-        -- inversion E1; subst. exists ((b :: q) :: P1), pa, pb, P2. simpl. simpl in E2. rewrite E2. repeat split; reflexivity.
+        -- inversion E1; subst. exists ((b :: q) :: P1), pa, pb, P2. simpl. rewrite <- ?app_assoc. repeat split; reflexivity.
 Qed.
 
 Lemma run_parts_app : forall i o P1 P2 cs fs ws, run_parts i o (P1 ++ P2) cs fs = Ok ws ->
@@ -420,7 +426,7 @@ Proof.
   destruct (run_parts i o P2 (w_cs w) (w_fs w)) as [ws2| |] eqn:R2; try discriminate. simpl in Rr. injection Rr as <-.
   destruct (writer_landmark _ _ _ _ _ _ _ _ Rw Pp L) as [tp [lt [tq [T [S1 [S2 [S3 [D [I0 [Lpos [B1 B2]]]]]]]]]]].
   destruct (writer_bound _ _ _ _ _ _ Rw Pp) as [Bw Pw].
-  subst ws. rewrite combine_toc_app. simpl combine_toc. rewrite N.add_0_l.
+  subst ws. rewrite combine_toc_app. simpl combine_toc. rewrite ?N.add_0_l.
   set (d := combine_total ws1). rewrite T. rewrite map_app. simpl map.
   exists (combine_toc ws1 0 ++ map (shift d) tp), (shift d lt), (map (shift d) tq ++ combine_toc ws2 (d + w_cwn w)).
   assert (Dl : t_off (shift d lt) = t_off lt + d) by (unfold shift; rewrite D; reflexivity).
